@@ -692,6 +692,8 @@ class Interp(object):
                 self.setreg(regs, i.reg(0), ("const", i.imm(1) & 0xFFFFFFFFFFFFFFFF))
         elif op in ("XOR64rr", "XOR32rr", "SUB64rr", "SUB32rr") and i.reg(1) == i.reg(2):
             self.setreg(regs, i.reg(0), ("const", 0))
+        elif op in ("OR64rr", "AND64rr") and i.reg(1) == i.reg(2) and i.reg(0) == i.reg(1):
+            pass                                        # `or r, r` / `and r, r`: flags only, the value is unchanged
         elif op in ("LEA64r", "LEA64_32r", "LEA32r"):
             av = self.addr_of(regs, i)
             self.setreg(regs, i.reg(0), av[0] if not (av[1] and av[0][0] in ("sp", "fr")) else ("der", frozenset((("stack",),))))
